@@ -1,12 +1,18 @@
 import XPathV.Lemmas.CacheProofs
 import XPathV.Lemmas.Facts
+import XPathV.Generated.ExtraFacts
+import XPathV.Lemmas.TemplateSem
+import XPathV.Lemmas.RegexPrecheck
 /-!
 # C16 — the pattern cache is exact, bounded, does not remember failed loads, for every schedule
 
 The model `XPathV.Model.Cache` splits `loadingCache.get` into the atomic sections its locks
-delimit; `Generated.evictCond` is re-translated from `cache.go` on every run.  The regex part of
-the property (matches/replace = Go regexp) has no Lean content: Go's `regexp` is the oracle and is
-compared directly by the harness (kind `regex`).
+delimit; `Generated.evictCond` is re-translated from `cache.go` on every run.  The matcher of Go's
+`regexp` is a parameter (compared directly by the harness, kind `regex`); what the package itself
+contributes to `replace()` — rewriting the XPath replacement string for `Regexp.Expand` — is modelled in
+`Model/Template.lean` together with Go's `expand`/`extract`, specified in `Spec/Template.lean`
+("ReplaceAllString with `$n` read as group n") and proved equal for every template below; the
+correspondence kind `tmpl` runs all three on the same templates.
 -/
 namespace XPathV.Theorems.C16
 open XPathV.Model.Cache XPathV
@@ -70,5 +76,56 @@ theorem evict_cond_ok (cap len : Nat) : Generated.evictCond cap len = true ↔ (
 /-- non-vacuity: a concrete schedule with two threads racing on one key, a failing key and an eviction -/
 example : (run 2 (fun k => if k == "f" then none else some ("V" ++ k))
     (initSys ["a", "a", "f", "b", "c"]) [0, 1, 0, 1, 2, 3, 4, 3, 4]).c.m.length ≤ 2 := by decide
+
+/-! ## `replace()`: the replacement string -/
+section Template
+open XPathV.Model.Template XPathV.Spec.Template XPathV.Lemmas.TemplateSem
+
+/-- **`replace(s, p, r)` substitutes, for each match, what "ReplaceAllString with `$n` read as group n" says**:
+for every replacement string `r`, every match (`g`: the texts and names of its groups) and every number of groups
+below Go's own limit, expanding (Go's `Regexp.expand`, transcribed) the template the package writes
+(`func.go: xpathReplacement`) equals the specification's direct reading of `r` — `$$` a literal dollar, `$n` the
+group named by the longest prefix of the digits that is an existing group, the rest Go's template syntax -/
+theorem C16_replace_template (g : Groups) (groups : Nat) (hk : groups < 100000000) (r : List Char) :
+    replaceOne g groups r = replaceOneSpec g groups r :=
+  replace_template_spec g groups hk r
+
+/-- a replacement string without `$` is inserted as it is -/
+theorem C16_replace_literal (g : Groups) (groups : Nat) (r : List Char) (h : '$' ∉ r) : replaceOne g groups r = r :=
+  replaceOne_noDollar g groups r h
+
+/-- `$n` followed by something that cannot extend the group number (a letter, say: `$1x`, which Go alone would
+read as a group *named* `1x`) is the text of group `n` -/
+theorem C16_replace_group_ref (g : Groups) (k : Nat) (hk : k < 100000000) (n : Nat) (h1 : 1 ≤ n) (hn : n ≤ k)
+    (rest : List Char)
+    (hrest : ∀ d rest', rest = d :: rest' → isDigitCh d = true → k < 10 * n + digitVal d) :
+    replaceOne g k ('$' :: digitsOf n ++ rest) = (g.texts.getD n none).getD [] ++ replaceOne g k rest :=
+  replaceOne_ref g k hk n h1 hn rest hrest
+
+/-- `$$` is a literal dollar, also in front of a digit (the defect repaired by a3d5186: `$$1` gave `${1}`) -/
+theorem C16_replace_dollar_dollar (g : Groups) (k : Nat) (rest : List Char) :
+    replaceOne g k ('$' :: '$' :: rest) = '$' :: replaceOne g k rest :=
+  replaceOne_dd g k rest
+
+/-- the fuel in the definitions is only a device: beyond the length of the template it changes nothing -/
+theorem C16_template_fuel (g : Groups) (groups : Nat) (t : List Char) (f : Nat) (h : t.length < f) :
+    rewrite groups f t = rewrite groups (t.length + 1) t ∧ expandGo g f t = expandGo g (t.length + 1) t ∧
+    expandSpec g groups f t = expandSpec g groups (t.length + 1) t :=
+  ⟨rewrite_fuel groups h, expandGo_fuel g h, expandSpec_fuel g groups h⟩
+
+end Template
+
+/-- **a constant pattern that does not compile is rejected by Compile** (`build.go: processFunction, case "matches"`):
+whatever the first argument, the flags, the depth and the builder configuration, `matches(x, 'p')` with a literal
+pattern the regexp compiler (`regexOk`, a parameter) rejects is never built -/
+theorem C16_constant_bad_pattern_rejected (rx : Model.RegexOk) (lim : Nat) (a b : Bool) (pfx : String) (x : Ast)
+    (p : String) (fl : Model.Flags) (st : Model.BState) (hbad : rx p = false) (o : Model.BOut) :
+    Model.build rx lim a b (.call "matches" pfx (.acons x (.acons (.str p) .anil))) fl st ≠ .ok o :=
+  Lemmas.RegexPrecheck.matches_bad_constant_rejected rx lim a b pfx x p fl st hbad o
+
+/-- T0: `replace()` hands Go's `ReplaceAllString` the replacement string rewritten by `xpathReplacement` with the
+pattern's own group count — the composition the template theorems are about (`replaceOne`) -/
+theorem replace_uses_rewritten_template :
+    Generated.replaceResultSrc = "e.ReplaceAllString(str,xpathReplacement(dst,e.NumSubexp()))" := by decide
 
 end XPathV.Theorems.C16
